@@ -320,7 +320,66 @@ def _m_unstructured(v):
     w = v.get("witness") or {}
     if w.get("clause") in ("ii", "iii"):
         return True
-    return "does not exist, but a jump to it does" in str(w.get("error", ""))
+    err = str(w.get("error", ""))
+    # (a jump that was turned into break_loop / continue although the writer had already left the loop is the same mechanism)
+    return "does not exist, but a jump to it does" in err or err.startswith(("Unexpected break_loop", "Unexpected continue", "Unexpected break"))
+
+
+@model("test-with-both-outcomes-to-the-same-op-on-a-cycle")
+def _m_both_outcomes_same(v):
+    """Trigger: a Branch* / Case* op both of whose outcomes lead (through jumps only) to the same op, and which lies on a cycle
+    (an `if` with an empty block inside a loop, laid out with its jump kept). Observation: behaviour mismatch (clause ii / iii) in
+    that routine: the loop passes take the test for the exit test of a `forever` loop."""
+    from vf.lts import JUMP_IDX, FLOW_END, CTX_OPS
+
+    rs = _spec_ops(v)
+    if not rs:
+        return False
+    w = v.get("witness") or {}
+    if w.get("clause") not in ("ii", "iii"):
+        return False
+    byoff, nxt, prev = {}, {}, {}
+    for r in rs:
+        for i, o in enumerate(r["ops"]):
+            byoff[o[0]] = o
+            nxt[o[0]] = r["ops"][i + 1][0] if i + 1 < len(r["ops"]) else None
+            prev[o[0]] = r["ops"][i - 1] if i > 0 else None
+
+    def silent(off):
+        seen = set()
+        while off is not None and off in byoff and byoff[off][1] == "Jump" and off not in seen:
+            seen.add(off)
+            off = _jump_target(byoff[off])
+        return off
+
+    def succ(off):
+        o = byoff[off]
+        name = o[1]
+        if name == "Jump":
+            return [_jump_target(o)]
+        if name in JUMP_IDX:
+            return [_jump_target(o), nxt[off]]
+        if name in FLOW_END and not (prev[off] is not None and prev[off][1] in CTX_OPS):
+            return []
+        return [nxt[off]]
+
+    ri = w.get("routine")
+    for k, r in enumerate(rs):
+        if ri is not None and k != ri:
+            continue
+        for o in r["ops"]:
+            if o[1] in JUMP_IDX and o[1] not in ("Jump", "Call") and silent(_jump_target(o)) == silent(nxt[o[0]]) and silent(nxt[o[0]]) is not None:
+                # on a cycle?
+                seen, stack = set(), [x for x in succ(o[0]) if x is not None]
+                while stack:
+                    x = stack.pop()
+                    if x == o[0]:
+                        return True
+                    if x in seen or x not in byoff:
+                        continue
+                    seen.add(x)
+                    stack += [y for y in succ(x) if y is not None]
+    return False
 
 
 @model("call-position-on-dropped-first-op")
